@@ -2394,7 +2394,13 @@ impl ModuleGraph {
       roots.iter().copied(),
       WalkOptions {
         follow_dynamic: true,
-        kind: self.graph_kind,
+        // a types-only walk replaces a code module by its types module, but
+        // the code module's entry is still needed to resolve the
+        // dependencies that name it
+        kind: match self.graph_kind {
+          GraphKind::TypesOnly => GraphKind::All,
+          kind => kind,
+        },
         check_js: CheckJsOption::True,
         prefer_fast_check_graph: false,
       },
